@@ -157,7 +157,9 @@ class Gen:
         c = ["int", "int", ("rec", "jet")]
         if not scalar:
             c += [("tup", ["int", ("rec", "jet")]), ("dict", {"a": "int", "b": "int"}),
-                  ("seq", "int"), ("tup", [("seq", ("rec", "jet")), "int"])]
+                  ("seq", "int"), ("tup", [("seq", ("rec", "jet")), "int"]),
+                  ("tup", ["int", ("tup", ["int", ("rec", "jet")])]),
+                  ("dict", {"a": ("tup", ["int", "int"]), "b": "int"})]
         return self.rng.choice(c)
 
     def build(self, o, T, env, d, cands):
@@ -366,10 +368,12 @@ def generate(prop, seed, tier="quick", fault_free=False):
             ops.append({"op": "restart",
                         "epoch": "child" if (tier == "thorough" and w.random() < 0.05) else "module"})
         else:
-            ops.append({"op": "warm", "k": w.choice([1, 1, 2, 3, 5, 9])})
+            ops.append({"op": "warm", "k": w.choice([1, 1, 2, 3, 5, 9, 40, 300])})
     return {"property": prop, "engine": "simplifier_node", "engine_version": ENGINE_VERSION,
             "seed": seed, "sched_seed": 0,
-            "config": {"naming": naming, "binder_reuse": reuse, "data": gen_data(st.get("data"))},
+            "config": {"naming": naming, "binder_reuse": reuse, "data": gen_data(st.get("data")),
+                       # a back end may keep one transformer object and feed it query after query
+                       "reuse_instance": (not fault_free) and c.random() < 0.3},
             "ops": ops}
 
 
@@ -429,8 +433,9 @@ def counter_of(mod):
     return getattr(mod, "argument_var_counter", None)
 
 
-def simplify(mod, a):
-    return mod.simplify_chained_calls().visit(copy.deepcopy(a))
+def simplify(mod, a, inst=None):
+    t = inst if inst is not None else mod.simplify_chained_calls()
+    return t.visit(copy.deepcopy(a))
 
 
 def to_text(a):
@@ -443,6 +448,7 @@ class Node:
         self.case = case
         self.data = build_data(case["config"]["data"])
         self.mod = fresh_module()
+        self.inst = None
         self.stats = {}
         self.served = []  # {text, refs, outs:[(counter_before, text_out)]}
         self.events = []
@@ -469,7 +475,15 @@ class Node:
             if self.restarted_since_argn_made:
                 self.stat("probe_restart_with_argN_alive")
         try:
-            s = simplify(self.mod, a)
+            if self.case["config"].get("reuse_instance"):
+                if self.inst is None:
+                    self.inst = self.mod.simplify_chained_calls()
+                    self.stat("transformer_instances_kept")
+                else:
+                    self.stat("probe_transformer_instance_reused")
+                s = simplify(self.mod, a, self.inst)
+            else:
+                s = simplify(self.mod, a)
         except RecursionError:
             self.stat("simplifier_recursion")
             self.events.append(f"serve|{origin}|recursion")
@@ -580,6 +594,7 @@ class Node:
                     self.served.append(rec)
             elif k == "restart":
                 self.mod = fresh_module()
+                self.inst = None
                 self.stat("fault_restart")
                 self.restarted_since_argn_made = True
                 self.events.append("restart")
